@@ -24,6 +24,8 @@ type FuncResult struct {
 	Paths       int
 	Blocks      int
 	GenS        float64
+	ResultTerms []Value
+	ErrNoTimeout *VIface
 }
 
 func (e *Engine) verifyFunction(fn *ssa.Function, ct *Contract, sweepOnly bool) *FuncResult {
@@ -84,7 +86,16 @@ func (e *Engine) verifyFunction(fn *ssa.Function, ct *Contract, sweepOnly bool) 
 	fr.entry = x.entry
 	// loop clause positions
 	exit, results := x.execFunction(fr, st)
-	res := &FuncResult{Key: key, Fn: fn, Contract: ct, VC: vc, Blocks: len(fn.Blocks)}
+	res := &FuncResult{Key: key, Fn: fn, Contract: ct, VC: vc, Blocks: len(fn.Blocks), ResultTerms: results}
+	if o := e.home.Scope().Lookup("errNoTimeout"); o != nil {
+		if v, ok := o.(*types.Var); ok {
+			if g := e.globalFor(v); g != nil {
+				if iv, ok := x.loadGlobal(x.entry, g, v.Type()).(VIface); ok {
+					res.ErrNoTimeout = &iv
+				}
+			}
+		}
+	}
 	if ct != nil && !exit.pc.IsFalse() {
 		for _, en := range ct.Ensures {
 			vars := x.frameVars(fr, true)
